@@ -8,13 +8,13 @@ VERIF = os.path.dirname(os.path.dirname(os.path.abspath(__file__)))
 
 # id: (engine, level category, technique, level text, level note, design ref)
 CHECKS = {
-    "C01": ("E1-serve", "exploration", "runtime monitor: body monitor comparing Content-Length / exact size hint / delivered bytes over generated requests x lengths x chunk plans; Miri + plain-release legs",
+    "C01": ("E1-serve", "exploration", "runtime monitor: body monitor comparing Content-Length / exact size hint / delivered bytes over generated requests x lengths x chunk plans; plain-release leg (also quick), Miri, libFuzzer+ASan with the same oracle",
             "Held on every execution produced: the body monitor drains each response of the generated request x entity-length x chunking product and compares the announced length (Content-Length, exact size hint) with the bytes delivered. Sampled exploration of an infinite space, boundary values enumerated.",
             "Trusts the harness entity to honour the Entity contract, the http/http-body crates, and the drain cap (giant bodies judged on a prefix).", "5/C01"),
-    "C02": ("E1-serve", "exploration", "runtime monitor: position-hash entity content compared byte for byte with what status + Content-Range denote; Miri + plain-release legs",
+    "C02": ("E1-serve", "exploration", "runtime monitor: position-hash (and delimiter-like) entity content compared byte for byte with what status + Content-Range (also of each multipart part) denote; plain-release, Miri, libFuzzer+ASan legs",
             "Every 200/206 body explored is compared byte for byte with the entity bytes its own headers denote, over all single-range forms at boundary positions (all positions for L <= 12), all chunk plans and lengths up to 2^64-1.",
             "Content byte i is a position hash; bodies above the drain cap are compared on their prefix.", "5/C02"),
-    "C03": ("E1-serve", "exploration", "runtime monitor: independent RFC 7233 resolver model as oracle over exhaustive small-length range sets and boundary numbers",
+    "C03": ("E1-serve", "exploration", "runtime monitor: independent RFC 7233 resolver model as oracle over exhaustive small-length range sets, boundary numbers and a header-rich multipart threshold sweep; plain-release, Miri, libFuzzer+ASan legs",
             "Responses are compared with an independent RFC 7233 resolver (u128 arithmetic) on all sets of up to 3 specs for lengths 1..8 (2 specs, lengths 1..5 in quick), boundary numbers up to 10^30, a sweep across the multipart thresholds and near-miss syntax.",
             "Oracle is permissive exactly where the statement is (lenient list forms, inverted specs, numbers above 2^64-1, 413 only when the multipart length cannot fit).", "5/C03"),
     "C04": ("E1-serve", "exploration", "runtime monitor: independent RFC 7232 precondition model over the full categorical product of validators",
